@@ -1307,6 +1307,148 @@ func execConn(o hx.Op) string {
 	return out
 }
 
+// ---------------------------------------------------------------- several key exchanges on one connection
+
+// scriptedSigner is a host key whose behaviour changes from the second exchange on.
+type scriptedSigner struct {
+	a, b  ssh.AlgorithmSigner // the host key and another key of the same type
+	mode  string
+	mu    sync.Mutex
+	calls int
+	first *ssh.Signature
+}
+
+func (s *scriptedSigner) later() bool { s.mu.Lock(); defer s.mu.Unlock(); return s.calls >= 1 }
+func (s *scriptedSigner) PublicKey() ssh.PublicKey {
+	if s.mode == "otherkey" && s.later() {
+		return s.b.PublicKey()
+	}
+	return s.a.PublicKey()
+}
+func (s *scriptedSigner) Sign(rand io.Reader, data []byte) (*ssh.Signature, error) {
+	return s.SignWithAlgorithm(rand, data, "")
+}
+func (s *scriptedSigner) SignWithAlgorithm(rand io.Reader, data []byte, algo string) (*ssh.Signature, error) {
+	s.mu.Lock()
+	n := s.calls
+	s.calls++
+	s.mu.Unlock()
+	if n == 0 {
+		sig, err := s.a.SignWithAlgorithm(rand, data, algo)
+		s.mu.Lock()
+		s.first = sig
+		s.mu.Unlock()
+		return sig, err
+	}
+	switch s.mode {
+	case "replay": // the first exchange's signature again: valid signature of the host key, but not over this H
+		return s.first, nil
+	case "garbage":
+		sig, err := s.a.SignWithAlgorithm(rand, data, algo)
+		if err == nil {
+			sig.Blob = append([]byte(nil), sig.Blob...)
+			for i := range sig.Blob {
+				sig.Blob[i] ^= byte(0x5a + i)
+			}
+		}
+		return sig, err
+	case "otherkey", "othersig": // otherkey: another key, properly signed; othersig: same key bytes, signed by another key
+		return s.b.SignWithAlgorithm(rand, data, algo)
+	}
+	return s.a.SignWithAlgorithm(rand, data, algo)
+}
+
+// execRekeySig: first key exchange (honest), then a re-key in which the server's host key / signature misbehaves.
+func execRekeySig(o hx.Op) string {
+	algo := o.Str("hk")
+	ka, kb := hostKeys()[0][keyFormat(algo)], hostKeys()[1][keyFormat(algo)]
+	ss := &scriptedSigner{a: ka.signer.(ssh.AlgorithmSigner), b: kb.signer.(ssh.AlgorithmSigner), mode: o.Str("sb")}
+	a, b := newBufHalf(), newBufHalf()
+	cconn, sconn := &pipeConn{r: b, w: a}, &pipeConn{r: a, w: b}
+	defer cconn.Close()
+	defer sconn.Close()
+	ccfg := &ssh.ClientConfig{User: "u"}
+	ccfg.KeyExchanges = []string{o.Str("m")}
+	ccfg.HostKeyAlgorithms = []string{algo}
+	if o.Str("cb") == "fixed" {
+		ccfg.HostKeyCallback = ssh.FixedHostKey(ka.signer.PublicKey())
+	} else {
+		ccfg.HostKeyCallback = ssh.InsecureIgnoreHostKey()
+	}
+	scfg := &ssh.ServerConfig{NoClientAuth: true}
+	scfg.KeyExchanges = []string{o.Str("m")}
+	scfg.AddHostKey(ss)
+	var mu sync.Mutex
+	newkeys := 0
+	cv, sv := []byte("SSH-2.0-verifC"), []byte("SSH-2.0-verifS")
+	ch := ssh.VerifNewClientHandshakeRec(cconn, cv, sv, ccfg, func(p []byte) {
+		if p[0] == 21 {
+			mu.Lock()
+			newkeys++
+			mu.Unlock()
+		}
+	})
+	sh := ssh.VerifNewServerHandshake(sconn, cv, sv, scfg)
+	defer func() { go ch.Close(); go sh.Close() }()
+	errc := make(chan error, 2)
+	go func() { errc <- ch.WaitSession() }()
+	go func() { errc <- sh.WaitSession() }()
+	for i := 0; i < 2; i++ {
+		select {
+		case err := <-errc:
+			if err != nil {
+				return "r first=err rekey=-"
+			}
+		case <-time.After(20 * time.Second):
+			return "r first=hang rekey=-"
+		}
+	}
+	cdead := make(chan struct{})
+	go func() {
+		for {
+			if _, err := ch.ReadPacket(); err != nil {
+				close(cdead)
+				return
+			}
+		}
+	}()
+	go func() {
+		for {
+			if _, err := sh.ReadPacket(); err != nil {
+				return
+			}
+		}
+	}()
+	sid := append([]byte(nil), ch.SessionID()...)
+	ch.RequestKeyExchange()
+	res := "hang"
+	t0 := time.Now()
+	for time.Since(t0) < 20*time.Second {
+		select {
+		case <-cdead:
+			res = "fail"
+		default:
+		}
+		if res == "fail" {
+			break
+		}
+		mu.Lock()
+		n := newkeys
+		mu.Unlock()
+		if k, _ := ch.KexState(); !k && n >= 2 {
+			res = "ok"
+			break
+		}
+		time.Sleep(200 * time.Microsecond)
+	}
+	if res == "ok" { // the connection must still work, with the same session id
+		if err := ch.WritePacket([]byte{94, 1, 2, 3}); err != nil || string(ch.SessionID()) != string(sid) {
+			res = "broken"
+		}
+	}
+	return "r first=ok rekey=" + res
+}
+
 func execNames() string {
 	sup, ins := ssh.SupportedAlgorithms().KeyExchanges, ssh.InsecureAlgorithms().KeyExchanges
 	sort.Strings(sup)
@@ -1321,6 +1463,8 @@ func exec(line string) string {
 	switch o.Cmd {
 	case "conn":
 		return execConn(o)
+	case "rksig":
+		return execRekeySig(o)
 	case "names":
 		return execNames()
 	case "choose":
@@ -1442,6 +1586,20 @@ func gen(g *hx.Gen) {
 			g.Emit("conn m=%s hk=%s cb=%s cv=%s sv=%s", m.name, hk, cb, hx.Hex(r.Bytes(r.Range(1, 6))), hx.Hex(r.Bytes(r.Range(1, 6))))
 			g.Stat("conn." + cb)
 			g.Stat("pair.conn:" + m.kind + "+" + hk)
+		}
+	}
+	// multi-exchange sessions: the host key signature must be verified on every exchange
+	for _, hk := range []string{"ssh-ed25519", "ecdsa-sha2-nistp256", "rsa-sha2-512", "ssh-ed25519-cert-v01@openssh.com"} {
+		for _, sb := range []string{"valid", "replay", "garbage", "otherkey", "othersig"} {
+			for _, cb := range []string{"fixed", "ignore"} {
+				if strings.Contains(hk, "cert") && (sb == "otherkey" || sb == "othersig") {
+					continue // the scripted signer swaps plain keys only
+				}
+				m := hx.Pick(r, []string{"curve25519-sha256", "ecdh-sha2-nistp256", "diffie-hellman-group14-sha256", "mlkem768x25519-sha256"})
+				g.Emit("rksig m=%s hk=%s sb=%s cb=%s", m, hk, sb, cb)
+				g.Stat("rekey-signature." + sb)
+				g.Stat("pair.rekey-sig:" + sb + "+" + cb)
+			}
 		}
 	}
 	rounds := 1
